@@ -82,6 +82,16 @@ namespace Pistache::Http::Experimental
                 header->write(streamBuf);
                 streamBuf << crlf;
             }
+
+            // headers that were set as name and value only (addRaw); cookies are written from
+            // the jar
+            for (const auto& raw : headers.rawList())
+            {
+                const auto& name = raw.second.name();
+                if (headers.has(name) || !strcasecmp(name.c_str(), "Cookie") || !strcasecmp(name.c_str(), "Set-Cookie"))
+                    continue;
+                streamBuf << name << ": " << raw.second.value() << crlf;
+            }
         }
 
         void writeCookies(std::stringstream& streamBuf,
